@@ -44,7 +44,31 @@ class Purity:
             self._collect(m.tree)
         self.writing = set()
         self.param_mut = {}
+        self.setters = {}       # property name -> [(rel, cls, fdef)] of its @name.setter definitions
+        for rel, m in sorted(repo.modules.items()):
+            for c in m.tree.body:
+                if isinstance(c, ast.ClassDef):
+                    for f in c.body:
+                        if isinstance(f, ast.FunctionDef) and any(isinstance(d, ast.Attribute) and d.attr == 'setter' for d in f.decorator_list):
+                            self.setters.setdefault(f.name, []).append((rel, c.name, f))
         self._solve()
+        self.setter_attrs = {}
+        for name, lst in self.setters.items():
+            w = {name}
+            for rel, cls, f in lst:
+                w |= self._writes(f, True).get(0, set())
+            self.setter_attrs[name] = w
+
+    def setter_writes(self, name, self_class=None):
+        """x.name = v where `name` is a property with a setter somewhere in the tree: the attributes the setter may store
+        (None when `name` is a plain attribute for the class known to own x)"""
+        if name not in self.setters:
+            return None
+        if self_class is not None:
+            fam = set(self._family(*self_class)) | set(self.repo.class_bases(*self_class))
+            if not any((rel, cls) in fam for rel, cls, f in self.setters[name]):
+                return None
+        return self.setter_attrs[name]
 
     def _collect(self, tree):
         for n in tree.body:
@@ -255,6 +279,9 @@ class Purity:
 
     def attrs_written(self, name):
         """first-level attributes of the receiver that a call of `name` may store, or None when that is not known"""
+        if name.startswith('set:'):
+            a = self.setter_attrs.get(name[4:])
+            return None if a is None or '*' in a else frozenset(a)
         if ':' in name and '.' in name.split(':', 1)[1] and name.split(':', 1)[0].endswith('.py'):   # 'rel:Cls.method' - resolved in a known class
             rel, q = name.split(':', 1)
             cls, m = q.split('.', 1)
